@@ -13,13 +13,24 @@ Lemma rsum_nil : rsum [] = 0.
 Proof. reflexivity. Qed.
 Lemma rsum_cons : forall x l, rsum (x :: l) = x + rsum l.
 Proof. reflexivity. Qed.
-Lemma qsum_cons : forall x l, qsum (x :: l) = Qred (x + qsum l).
+Lemma qadd_correct : forall a b, qadd a b == a + b.
+Proof.
+  intros [na da] [nb db]. unfold qadd. cbn [Qnum Qden].
+  destruct (nb =? 0)%Z eqn:Z0.
+  - apply Z.eqb_eq in Z0. subst nb. unfold Qeq, Qplus. cbn [Qnum Qden]. rewrite Pos2Z.inj_mul. ring.
+  - destruct (Pos.eqb da db) eqn:E.
+    + apply Pos.eqb_eq in E. subst db. unfold Qeq, Qplus. cbn [Qnum Qden]. rewrite Pos2Z.inj_mul. ring.
+    + apply Qred_correct.
+Qed.
+
+Lemma psum_cons : forall x l, psum (x :: l) = qadd x (psum l).
 Proof. reflexivity. Qed.
 
 Lemma qsum_rsum : forall l, qsum l == rsum l.
 Proof.
+  intros l. unfold qsum. rewrite Qred_correct.
   induction l as [|x l IH]; [reflexivity|].
-  rewrite qsum_cons, rsum_cons, Qred_correct, IH. reflexivity.
+  rewrite psum_cons, rsum_cons, qadd_correct, IH. reflexivity.
 Qed.
 
 Lemma rsum_app : forall a b, rsum (a ++ b) == rsum a + rsum b.
@@ -76,11 +87,11 @@ Qed.
 
 (* sum (x - m)^2 = sum x^2 - 2 m sum x + n m^2, for every m *)
 Lemma rsum_dev_sq : forall l m,
-  rsum (map sqr (map (fun x => Qred (x - m)) l)) == rsum (map sqr l) - 2 * m * rsum l + qlen l * (m * m).
+  rsum (map sqr (map (fun x => x - m) l)) == rsum (map sqr l) - 2 * m * rsum l + qlen l * (m * m).
 Proof.
   induction l as [|x l IH]; intros m.
   - cbn [map]. rewrite !rsum_nil. unfold qlen, zlen. cbn. ring.
-  - cbn [map]. rewrite !rsum_cons, IH, qlen_cons. unfold sqr. rewrite Qred_correct. ring.
+  - cbn [map]. rewrite !rsum_cons, IH, qlen_cons. unfold sqr. ring.
 Qed.
 
 Lemma mean_eq : forall l, mean l == rsum l / qlen l.
